@@ -15,6 +15,7 @@ import DateutilVerif.Proofs.ParserGenStep
 import DateutilVerif.Proofs.ParserGenNaive
 import DateutilVerif.Proofs.ParserGenLoop
 import DateutilVerif.Proofs.ParserGenParse
+import DateutilVerif.Proofs.ParserGenTail
 
 namespace ParserGen
 open PM Py
@@ -201,6 +202,20 @@ theorem gen_eq_model_parse_partial (cls : Char → CClass) (info : Info) (fuel :
       PM.parseTokens cls info { dayfirst := dayfirst, yearfirst := yearfirst, fuzzy := fuzzy,
                                 fuzzyWithTokens := fuzzyWithTokens } (PM.lex cls timestr) :=
   PGen.parse_eq cls info fuel timestr dayfirst yearfirst fuzzy fuzzyWithTokens hc hf
+
+/-- `parser.parse(timestr, default, ignoretz, tzinfos, **kwargs)` from the `_parse` call to the return, as written now (with the
+    two repairs ce40246 / fef6cad in place): "Unknown string format" / "String does not contain a date" ParserErrors,
+    `_build_naive` and `_build_tzaware` each inside `except ValueError → ParserError`, `ret.replace(tzinfo=None)` for
+    `ignoretz`, the `fuzzy_with_tokens` return — equal to the model's `parseA` (any default: its tzinfo kept / dropped as
+    `FinalTz` says).  `_build_tzaware` itself is a named stand-in for the hand model's cascade (not translated);
+    same `_century ≥ 100` and fuel hypotheses as `_parse`. -/
+theorem gen_eq_model_parse_tail_partial (cls : Char → CClass) (info : Info) (fuel : Nat) (tznames : List Token)
+    (timestr : List Char) (dflt : DT) (ignoretz : Bool) (tzi : TzInfos) (dayfirst yearfirst : Option Bool)
+    (fuzzy fuzzyWithTokens : Bool) (hc : 100 ≤ info.century) (hf : (PM.lex cls timestr).length ≤ fuel) :
+    Gen.P.parseTail fuel cls tznames info timestr dflt ignoretz tzi dayfirst yearfirst fuzzy fuzzyWithTokens =
+      PM.parseA cls info { dayfirst := dayfirst, yearfirst := yearfirst, fuzzy := fuzzy, fuzzyWithTokens := fuzzyWithTokens,
+                           ignoretz := ignoretz } tznames tzi dflt timestr :=
+  PGen.parseTail_eq cls info fuel tznames timestr dflt ignoretz tzi dayfirst yearfirst fuzzy fuzzyWithTokens hc hf
 
 -- the hypotheses are satisfiable (the stock parserinfo of any year from 100 on; fuel = number of tokens)
 example : (100 : Int) ≤ (Info.default false false 2026 2000).century ∧ ([tk "10", tk " ", tk "pm"] : List Token).length ≤ 3 := by
